@@ -1,4 +1,5 @@
 import IrefVerif.Lemmas.ValidWF
+import IrefVerif.Lemmas.SetterEqs
 
 /-!
 # C05 — component setters change exactly the targeted component
@@ -8,12 +9,18 @@ the old components with the targeted one replaced (and the path put behind the d
 disambiguation when one applies).  Proved: when the new list of components is valid, its
 recomposition is a valid reference that decomposes to *exactly* that list — the requested value
 reads back, every other component reads back identical.  For query and fragment no
-disambiguation is ever needed and the new list is always valid.  That the Rust setters produce
-that recomposition is the `setters` correspondence stream and `Oracle.frame`.
+disambiguation is ever needed and the new list is always valid.
+Model level (`model_set_*`): the *model of each Rust setter* (`Model/Reference.lean`: the
+`find_*` scan and the `Vec` splice, including every disambiguation branch), run on any valid
+reference, returns exactly that recomposition — with the path behind `./` when removing the
+scheme exposes a first segment containing `:`, behind `/` when an authority is put in front of a
+relative non-empty path, behind `/.` when removing the authority exposes a leading `//`, and the
+same three rules for `set_path`.  That the Rust setters behave like the model is the `setters`
+correspondence stream; `Oracle.frame` judges the implementation against the specification.
 -/
 
 namespace IrefVerif.Props.C05
-open IrefVerif IrefVerif.Spec IrefVerif.Lemmas
+open IrefVerif IrefVerif.Spec IrefVerif.Lemmas IrefVerif.Model
 
 /-- **read-back**: a valid component list is what its text decomposes to -/
 theorem read_back (G : Grammar) (ok : Grammar.Ok G) (P : Spec.Parts) (hv : ValidParts G P) :
@@ -63,5 +70,55 @@ theorem set_authority_some (G : Grammar) (ok : Grammar.Ok G) (w : Text) (h : RE.
   · intro _; exact hv.pathAuth ha
   · intro hn; cases hn
   · intro hn; cases hn
+
+/-! ## the model of the setters computes the specification -/
+
+section Model
+variable (G : Grammar) (ok : Grammar.Ok G) (w : Text) (h : RE.Matches G.reference w)
+include ok h
+
+theorem model_set_query (v : Option Text) :
+    Ref.set_query w v = some (recompose { split w with query := v }) := by
+  have := set_query_recompose (split w) (split_valid G ok w h).2 v
+  rwa [Lemmas.recompose_split] at this
+
+theorem model_set_fragment (v : Option Text) :
+    Ref.set_fragment w v = some (recompose { split w with fragment := v }) := by
+  have := set_fragment_recompose (split w) (split_valid G ok w h).2 v
+  rwa [Lemmas.recompose_split] at this
+
+theorem model_set_scheme_some (s : Text) :
+    Ref.set_scheme w (some s) = some (recompose { split w with scheme := some s }) := by
+  have := set_scheme_some_recompose (split w) (split_valid G ok w h).2 s
+  rwa [Lemmas.recompose_split] at this
+
+theorem model_set_scheme_none :
+    Ref.set_scheme w none = some (recompose { split w with scheme := none, path := pathNoScheme (split w) }) := by
+  have := set_scheme_none_recompose (split w) (split_valid G ok w h).2
+  rwa [Lemmas.recompose_split] at this
+
+theorem model_set_authority_some (a : Text) :
+    Ref.set_authority w (some a) =
+      some (recompose { split w with authority := some a, path := pathWithAuth (split w) }) := by
+  have := set_authority_some_recompose (split w) (split_valid G ok w h).2 a
+  rwa [Lemmas.recompose_split] at this
+
+theorem model_set_authority_none :
+    Ref.set_authority w none =
+      some (recompose { split w with authority := none, path := pathNoAuth (split w) }) := by
+  have := set_authority_none_recompose (split w) (split_valid G ok w h).2
+  rwa [Lemmas.recompose_split] at this
+
+theorem model_set_path (p : Text) :
+    Ref.set_path w p = some (recompose { split w with path := setPathSpec (split w) p }) := by
+  have := set_path_recompose (split w) (split_valid G ok w h).2 p
+  rwa [Lemmas.recompose_split] at this
+
+end Model
+
+/-- non-vacuity and the three shields, computed by the model -/
+example : Ref.set_scheme [0x73, 0x3A, 0x61, 0x3A, 0x62] none = some [0x2E, 0x2F, 0x61, 0x3A, 0x62] := by decide
+example : Ref.set_authority [0x73, 0x3A, 0x61] (some [0x68]) = some [0x73, 0x3A, 0x2F, 0x2F, 0x68, 0x2F, 0x61] := by decide
+example : Ref.set_authority [0x2F, 0x2F, 0x68, 0x2F, 0x2F, 0x61] none = some [0x2F, 0x2E, 0x2F, 0x2F, 0x61] := by decide
 
 end IrefVerif.Props.C05
